@@ -367,8 +367,14 @@ def r3_per_run_state(report, repo):
   for tgt, ctor in want.items():
     a = [n for n in walk_no_nested(init.node) if isinstance(n, ast.Assign) and
          dotted(n.targets[0]) == tgt]
-    ok = len(a) == 1 and isinstance(a[0].value, ast.Call) and \
-        last_attr(a[0].value) == ctor
+    val = a[0].value if len(a) == 1 else None
+    if isinstance(val, ast.Name):
+      # built into a local first: that local's only definition
+      defs = [n.value for n in walk_no_nested(init.node) if isinstance(
+          n, ast.Assign) and any(core.is_name(t, val.id) for t in n.targets)]
+      val = defs[0] if len(defs) == 1 else None
+    ok = len(a) == 1 and isinstance(val, ast.Call) and \
+        last_attr(val) == ctor
     report.check(ok, rule, init.qualname, tgt, init.node,
                  '%s = %s(...) per TestState' % (tgt, ctor),
                  '%s is not constructed fresh per run' % tgt)
